@@ -403,9 +403,31 @@ class Cell:
     def is_unbind(self, n, recv=None):
         return self.is_state_store(n) and self.is_unbound_marker(n.info) and (recv is None or norm(n.ast.value) == recv)
 
-    def unbound_label(self, test, recv):
-        """which out-edge of this test means 'recv is not bound' (None: not a test of the cell)"""
+    def unbound_label(self, test, recv, f=None):
+        """which out-edge of this test means 'recv is not bound' (None: not a test of the cell); with f, a local that is
+        assigned once, from the cell field of recv, stands for that field"""
         t = test
+        if f is not None:
+            copies = {}
+            for s_ in own_nodes(f.node):
+                if isinstance(s_, ast.Assign) and len(s_.targets) == 1 and isinstance(s_.targets[0], ast.Name) and \
+                        isinstance(s_.value, ast.Attribute) and s_.value.attr in self.fields and norm(s_.value.value) == recv:
+                    copies.setdefault(s_.targets[0].id, []).append(s_.value)
+            stores = {}
+            for x in own_nodes(f.node):
+                if isinstance(x, ast.Name) and isinstance(x.ctx, ast.Store):
+                    stores[x.id] = stores.get(x.id, 0) + 1
+            copies = {k: v[0] for k, v in copies.items() if len(v) == 1 and stores.get(k) == 1 and k not in f.all_params}
+            if copies and any(isinstance(x, ast.Name) and x.id in copies for x in ast.walk(t)):
+                from .model import _clone
+
+                class Sub(ast.NodeTransformer):
+                    def visit_Name(self, node):
+                        if node.id in copies and isinstance(node.ctx, ast.Load):
+                            return _clone(copies[node.id])
+                        return node
+                t = Sub().visit(_clone(t))
+                ast.fix_missing_locations(t)
         if self.kind == 'flag':
             fld = recv + '.' + self.flag
             if isinstance(t, ast.UnaryOp) and isinstance(t.op, ast.Not) and norm(t.operand) == fld:
@@ -420,7 +442,7 @@ class Cell:
             return None
         fld = recv + '.' + self.value
         if isinstance(t, ast.UnaryOp) and isinstance(t.op, ast.Not):
-            inner = self.unbound_label(t.operand, recv)
+            inner = self.unbound_label(t.operand, recv, f)
             return None if inner is None else ('false' if inner == 'true' else 'true')
         if isinstance(t, ast.Compare) and len(t.ops) == 1 and isinstance(t.ops[0], (ast.Is, ast.IsNot)):
             sides = [norm(t.left), norm(t.comparators[0])]
